@@ -32,7 +32,7 @@ ENGINES = [
      "serves_properties": ["C16", "C20"],
      "kind_free_text": "T.81 B / T.87 C / T.800 A marker-segment grammars as a TLA+ walker; T.800 Annex C MQ coder machine; "
                        "TLC validates every stream the encoders emit and every MQ register trajectory"},
-    {"name": "dwt", "path": "spec/Dwt53.tla spec/MC_Dwt53.tla spec/C20Trace.tla",
+    {"name": "dwt", "path": "spec/Dwt53.tla spec/MC_Dwt53.tla spec/T1.tla spec/MC_T1.tla spec/C20Trace.tla",
      "serves_properties": ["C20"],
      "kind_free_text": "T.800 Annex F 5/3 lifting with absolute-coordinate symmetric extension, multi-level Mallat layout, Annex G RCT; "
                        "perfect reconstruction model-checked; trace validation of wavelet/colorspace/t1 calls"},
@@ -192,7 +192,8 @@ CHECKS = {
                      "MC_MQ: Decode(Encode(d)) = d, carry/stuffing invariants for all decision strings <= 10 over 2 contexts; "
                      "C20Trace/MqTrace validate the library's inverse DWT / RCT outputs against the spec value by value, the MQ "
                      "encoder's registers and bytes step by step (verif hook), and T1 block identity under every code-block style.",
-                note="EBCOT T1 context formation is not transcribed (contract level only); forward-DWT deviations for length-1 "
+                note="the verdict on T1 is block identity; the Annex D reference decoder (spec/T1.tla, model-checked in MC_T1) decodes the "
+                     "encoder's bytes as an informational second opinion; forward-DWT deviations for length-1 "
                      "odd-origin windows are reported as INFO (the inverse is consistent); known finding: lazy mode without TERMALL"),
 
     "C15": dict(engine="jpegseq", level="model_checking", design_ref="DESIGN.md 7/C15",
